@@ -13,6 +13,9 @@ type FSHook struct {
 	// thread can ever touch need no gate: they commute with everything (a sound reduction as long as
 	// the harness really keeps those paths private).
 	Gated func(op *vfsx.Op) bool
+	// Label renders the scheduling-point label of a call (nil = op.String()). Labels are compared across
+	// runs by the replay assertion, so anything random in a path (UUIDs, temp names) must be canonicalised here.
+	Label func(op *vfsx.Op) string
 	// BeforeOp runs in the thread, after it was released and right before the backend call
 	// (only one thread runs at a time, so it may touch harness state without locks).
 	// It may return an injection (fault layer).
@@ -23,7 +26,13 @@ type FSHook struct {
 
 func (h *FSHook) Before(op *vfsx.Op) *vfsx.Inject {
 	if h.Gated == nil || h.Gated(op) {
-		h.X.Gate(op.Client, op.String())
+		lbl := ""
+		if h.Label != nil {
+			lbl = h.Label(op)
+		} else {
+			lbl = op.String()
+		}
+		h.X.Gate(op.Client, lbl)
 		if h.BeforeOp != nil {
 			return h.BeforeOp(op)
 		}
